@@ -75,7 +75,7 @@ class Flavor(Harness):
         return c07.Stable(template=fam[1], n=int(fam[2]), encoder="PVL")
 
     def inputs(self, ctx):
-        if self.family.startswith("time:"):
+        if self.family.startswith("time:") or self.family.startswith("lit:"):
             shape = self.family.split(":", 1)[1]
             return {"x": SymStr([ctx.fresh_char("d%d" % i, ((48, 57),)) if ch == "d" else ch for i, ch in enumerate(shape)])}
         return self.source().inputs(ctx)
@@ -83,6 +83,10 @@ class Flavor(Harness):
     def text(self, inp):
         if self.family.startswith("time:"):
             return "t = " + inp["x"] + "\nu = 1\nEND\n"
+        if self.family.startswith("lit:"):
+            # the symbolic digits sit in a value; the rest of the family text is literal
+            return "BEGIN_GROUP = g\n r = " + inp["x"] + "\nEND_GROUP = g\nBEGIN_OBJECT = o\n k = 1\nEND_OBJECT\nEND\n" \
+                if self.family.endswith("B") else "r = " + inp["x"] + "\ns = +d\nEND\n".replace("d", "1")
         src = self.source()
         if isinstance(src, c08.Gaps):
             rm = list(inp["rm"])
@@ -224,7 +228,7 @@ class TranslateJSON(Harness):
 def obligations(tier):
     obs = []
     quick = tier == "quick"
-    fams = ["time:dd:dd:dd+dd", "time:dd:dd:dd.dddd", "time:dddd-dd-ddTdd:dd", "gaps:top3", "gaps:group", "gaps:values", "gaps:semi", "quoted:quoted:1", "unq:unquoted:1", "unq:unquoted:2",
+    fams = ["lit:d#dd#", "lit:-d#d#", "lit:dd#-d#", "lit:d.dB", "lit:ddB", "time:dd:dd:dd+dd", "time:dd:dd:dd.dddd", "time:dddd-dd-ddTdd:dd", "gaps:top3", "gaps:group", "gaps:values", "gaps:semi", "quoted:quoted:1", "unq:unquoted:1", "unq:unquoted:2",
             "k:keywords:0", "m:mixed:5", "s:seqUnits:4"]
     if not quick:
         fams += ["gaps:" + t for t in c08.TEMPLATES if t not in ("top3", "group", "values", "semi")] + ["quoted:quoted:2"]
